@@ -335,6 +335,7 @@ def monitor(owner, name, on_event, rebind_aliases=True, pure=True):
         pnames = None
 
     pinned = PINNED_API.get('%s.%s' % (getattr(owner, '__name__', owner), name))
+    pinned_defaults = PINNED_API.get('%s.%s#defaults' % (getattr(owner, '__name__', owner), name), {})
 
     def by_keyword(a, k):
         n = AMB['n']
@@ -347,6 +348,21 @@ def monitor(owner, name, on_event, rebind_aliases=True, pure=True):
                 if ctx is not None:
                     ctx.counters['ambient.calls-with-keyword-arguments-passed-positionally'] += 1
                 return tuple(a) + tuple(k[nm] for nm in nxt), {}
+            # with gaps: the slots in between are filled with the pinned literal defaults (gender, 1.2, MyError - the documented order)
+            if all(nm in pinned for nm in k):
+                last = max(pinned.index(nm) for nm in k)
+                fill = []
+                for nm in pinned[len(a):last + 1]:
+                    if nm in k:
+                        fill.append(k[nm])
+                    elif nm in pinned_defaults:
+                        fill.append(pinned_defaults[nm])
+                    else:
+                        return a, k
+                ctx = DET['ctx']
+                if ctx is not None:
+                    ctx.counters['ambient.calls-with-keyword-arguments-passed-positionally'] += 1
+                return tuple(a) + tuple(fill), {}
             return a, k
         if pnames is None or n % 7 != 5 or not a or len(a) > len(pnames) or not AMB['on']:
             return a, k
